@@ -102,7 +102,7 @@ func (fr *Frame) call(ins ssa.Instruction, c *ssa.CallCommon, st *State) []Term 
 			cx.argTs = append(cx.argTs, v.Type())
 		}
 	}
-	fr.afterHooks(cx, rs)
+	fr.afterHooks(cx, rs, before)
 	if fr.top || true {
 		tf := fr
 		for tf.parent != nil {
